@@ -151,10 +151,15 @@ func init() {
 			}
 		}
 		// peers(): all members except self
-		ps := o.Fn("(*am/cluster.Peer).AddState$2")
+		// the functions the channel is wired to (literals or method values)
+		as := o.Fn("(*am/cluster.Peer).AddState")
+		nc := o.One(e.Calls(as, "am/cluster.NewChannel"), "newchannel", "AddState must create the channel", as)
+		s1, ps, s3 := e.FuncValue(e.ArgV(nc, 1)), e.FuncValue(e.ArgV(nc, 2)), e.FuncValue(e.ArgV(nc, 3))
+		o.Require(e.Arg(nc, 0) == "p0" && s1 != nil && ps != nil && s3 != nil, "newchannel-args", "the channel must be wired to (key, gossip send, peers, reliable send)", nc)
 		mem := o.One(e.Calls(ps, "(*github.com/hashicorp/memberlist.Memberlist).Members"), "members", "peers() must start from the member list", ps)
 		o.Site(mem, "peers() = members − self")
-		self := LRe(`\(\(\*am/cluster\.Peer\)\.Self\(\^recv\)\.Name == \(\*github\.com/hashicorp/memberlist\.Node\)\.String\(.*\[i\]\)\)`, true)
+		self := LRe(`\(\(\*am/cluster\.Peer\)\.Self\(\^?recv\)\.Name == \(\*github\.com/hashicorp/memberlist\.Node\)\.String\(.*\[i\]\)\)`, true)
+		anyTail := false
 		for _, ret := range (&Walk{Fn: ps}).FromEntry().Returns() {
 			bases, parts := e.AppendParts(ret.Results[0])
 			okBase := false
@@ -172,16 +177,27 @@ func init() {
 					tail = true
 				}
 			}
+			if len(parts) == 0 {
+				// the unmodified member list: only when self was not found
+				continue
+			}
+			anyTail = true
 			o.Check(tail, "peers-tail", "removing self from the member list must keep every member after it (append(nodes[:i], nodes[i+1:]...))", ret)
 		}
+		o.Check(anyTail, "peers-tail", "peers() never removes self from the member list", mem)
+		// once self was found it is removed: no return of the unmodified list after the match
+		for _, ec := range e.EdgesAsserting(ps, self) {
+			r := (&Walk{Fn: ps}).FromEdgeCtx(ec)
+			for _, ret := range r.Returns() {
+				for _, v := range e.RetVals(r, ret, 0) {
+					_, parts := e.AppendPartsUnder(r, v)
+					o.Check(len(parts) > 0, "peers-self-kept", "peers() can return the member list with self still in it", ret)
+				}
+			}
+		}
 		// AddState wiring
-		as := o.Fn("(*am/cluster.Peer).AddState")
-		nc := o.One(e.Calls(as, "am/cluster.NewChannel"), "newchannel", "AddState must create the channel", as)
-		o.Check(e.Arg(nc, 0) == "p0" && e.Arg(nc, 1) == "closure:(*am/cluster.Peer).AddState$1" && e.Arg(nc, 2) == "closure:(*am/cluster.Peer).AddState$2" && e.Arg(nc, 3) == "closure:(*am/cluster.Peer).AddState$3", "newchannel-args", "the channel must be wired to (key, gossip send, peers, reliable send)", nc)
-		s1 := o.Fn("(*am/cluster.Peer).AddState$1")
 		qb := o.One(e.Calls(s1, "(*github.com/hashicorp/memberlist.TransmitLimitedQueue).QueueBroadcast"), "queue", "the gossip send must queue a broadcast", s1)
 		o.Check(e.Arg(qb, 1) == "p0", "queue-arg", "the queued broadcast must be the message", qb)
-		s3 := o.Fn("(*am/cluster.Peer).AddState$3")
 		sr := o.One(e.Calls(s3, "(*github.com/hashicorp/memberlist.Memberlist).SendReliable"), "reliable", "the oversize send must use the reliable channel", s3)
 		o.Check(e.Arg(sr, 1) == "p0" && e.Arg(sr, 2) == "p1", "reliable-args", "the reliable send must target the given node with the given message", sr)
 		nch := o.Fn("am/cluster.NewChannel")
@@ -206,8 +222,10 @@ func init() {
 		o.Check(e.Arg(um, 0) == "p0", "unmarshal-arg", "the decoded bytes must be the received message", um)
 		mg := o.One(e.Calls(fn, "invoke:am/cluster.State.Merge"), "merge", "NotifyMsg must merge the update", fn)
 		o.Site(mg, "merge "+e.X(fn, mg.(*ssa.Call)))
-		key := "&p:am/cluster/clusterpb.Part.Key"
-		o.Check(e.Arg(mg, 0) == "recv.Peer.states["+key+"]#0" && e.Arg(mg, 1) == "&p:am/cluster/clusterpb.Part.Data", "merge-args", "the state addressed by the Part's key must merge the Part's data, got "+e.X(fn, mg.(*ssa.Call)), mg)
+		pv := e.Arg(um, 1) // the Part the message is decoded into
+		o.Check(regexpMatch(`&\w+:am/cluster/clusterpb\.Part`, pv), "unmarshal-into", "the message must be decoded into a Part, is decoded into "+pv, um)
+		key := pv + ".Key"
+		o.Check(e.Arg(mg, 0) == "recv.Peer.states["+key+"]#0" && e.Arg(mg, 1) == pv+".Data", "merge-args", "the state addressed by the Part's key must merge the Part's data, got "+e.X(fn, mg.(*ssa.Call)), mg)
 		o.Guarded(mg, "merge-decoded", "merging", L("("+e.X(fn, um.(*ssa.Call))+" == nil)", true))
 		o.Guarded(mg, "merge-known", "merging", L("recv.Peer.states["+key+"]#1", true))
 		o.Forced(fn, "merge-forced", "a decodable update for a known state must be merged", IsInstr(mg), L("("+e.X(fn, um.(*ssa.Call))+" == nil)", true), L("recv.Peer.states["+key+"]#1", true))
@@ -221,12 +239,15 @@ func init() {
 		fn := o.Fn("(*am/cluster.delegate).MergeRemoteState")
 		mg := o.One(e.Calls(fn, "invoke:am/cluster.State.Merge"), "merge", "MergeRemoteState must merge the parts", fn)
 		o.Site(mg, "merge part")
-		part := "&fs:am/cluster/clusterpb.FullState.Parts[i]"
+		fsUm := o.One(e.Calls(fn, "proto.Unmarshal"), "unmarshal", "MergeRemoteState must decode the full state", fn)
+		fsv := e.Arg(fsUm, 1)
+		o.Check(regexpMatch(`&\w+:am/cluster/clusterpb\.FullState`, fsv), "unmarshal-into", "the remote state must be decoded into a FullState, is decoded into "+fsv, fsUm)
+		part := fsv + ".Parts[i]"
 		o.Check(e.Arg(mg, 0) == "recv.Peer.states["+part+".Key]#0" && e.Arg(mg, 1) == part+".Data", "merge-args", "each part must be merged by the state with the part's key", mg)
 		l := e.LoopOf(mg)
 		o.Require(l != nil, "loop", "parts are not merged in a loop", mg)
 		coll, kind := e.RangeOver(l)
-		o.Check(coll == "&fs:am/cluster/clusterpb.FullState.Parts" && kind == "index", "range", "the loop must range over all parts", mg)
+		o.Check(coll == fsv+".Parts" && kind == "index", "range", "the loop must range over all parts", mg)
 		for _, ex := range e.EarlyExits(l) {
 			o.Fail("parts-early-exit|(*am/cluster.delegate).MergeRemoteState", "the parts loop can be left before all parts were handled: a part with an unknown key or one that fails to merge prevents the remaining states from being merged", ex)
 		}
